@@ -70,7 +70,8 @@ class SBytes:
             return r
         return bnot(r) if r.__class__ is Bit else not r
 
-    __hash__ = None
+    def __hash__(self):
+        return 0x53594D
 
     def __bool__(self):
         return len(self.o) > 0
@@ -130,6 +131,7 @@ def int_from_bytes(data, byteorder="big", *, signed=False):
 class SByteArray(SBytes):
     """mutable variant (bytearray stand-in)"""
     __slots__ = ()
+    __hash__ = None
 
     def __setitem__(self, i, v):
         if isinstance(i, slice):
